@@ -41,9 +41,9 @@ META = {
         note="Trusted: Python == on int/float/str/list/dict.",
         technique="static analysis: taint/provenance of comparison operands, abstract evaluation of the normaliser", ref="5/C08"),
     "C09": dict(
-        text="Static: numeric exception-effect analysis shows no finite number can make a numeric keyword raise; comparison keywords compare the raw operands (no lossy conversion); the int/int path of multipleOf uses integer %; every verdict definition depends on both operands. Not decided: floating-point exactness on the exact sub-domain.",
+        text="Static: numeric exception-effect analysis shows no finite number can make a numeric keyword raise; comparison keywords compare the raw operands (no lossy conversion); the int/int path of multipleOf uses integer %; every verdict definition depends on both operands; R9.6: multipleOf/divisibleBy on 258 and each bound keyword on 70+ concrete number pairs (integers to 10**400, floats over the whole exponent range, 2**53 neighbours, signed zeros) agree with exact rational arithmetic where the property claims a verdict and raise nowhere. Not decided beyond that table: floating-point exactness on the whole exact sub-domain.",
         note="Trusted: Python arbitrary-precision int/float comparison is exact; operation model for OverflowError/ZeroDivisionError.",
-        technique="static analysis: abstract interpretation restricted to numeric kinds, operand provenance", ref="5/C09"),
+        technique="static analysis: abstract interpretation restricted to numeric kinds, operand provenance; definitional interpreter (sa/tokeval.py) on a table of concrete number pairs compared with exact rational arithmetic", ref="5/C09"),
     "C10": dict(
         text="Static: the set of schema keys validation-reachable code can read, per draft, equals vocabulary + declared siblings + id key + $ref; unknown key has no effect in the dispatcher; nothing else iterates a schema object; id key per draft.",
         note="Trusted: spec vocabulary tables; messages embedding repr(schema) are message-only.",
